@@ -354,6 +354,9 @@ func runCheck(repo, prop, tier string) int {
 			line := fmt.Sprintf("KNOWN-FINDING: property=%s %s", prop, strings.TrimSpace(strings.TrimPrefix(kf.Rest, "property="+prop)))
 			fmt.Println(line)
 			knownLines = append(knownLines, line)
+			if !boundedNames[name] {
+				total-- // a recorded finding is reported separately, not as an obligation of the claim
+			}
 			continue
 		}
 		violations++
